@@ -1,4 +1,5 @@
 """X.691 (PER) spec functions over the decoder's bit string s ('0'/'1' characters) and a read position p."""
+from .prims import *
 
 
 def ld_first(s, p) -> Int:
@@ -51,3 +52,13 @@ def open_end(s, total, r) -> Int:
 def choice_addition_end(s, total, r) -> Int:
     """X.691 23.8: extension alternative = normally small index, then the alternative as an open type"""
     return open_end(s, total, r - nsn_size(s, total - r))
+
+
+def ld_size__facts(s, p, r):
+    return r == 8 or r == 16
+
+
+@lemma
+def fact_ld_size(s: Str, p: Int):
+    nofacts("ld_size")
+    ensures(ld_size(s, p) == 8 or ld_size(s, p) == 16)
